@@ -467,9 +467,22 @@ func (c *Ctx) finish(info *propInfo, start time.Time) int {
 		if perRule[r] != nil {
 			n = perRule[r]["instances"]
 		}
-		floorReport[r] = map[string]int{"instances": n, "floor": c.Floors[r]}
-		if n < c.Floors[r] {
-			c.problem("rule %s matched %d instances, below its floor %d (rule would pass vacuously)", r, n, c.Floors[r])
+		// The floor guards against a rule that silently stopped finding its
+		// instances. A refactoring that legitimately removes one instance must
+		// not turn the check undecided: a rule whose want:/clean: fixtures were
+		// both exercised in this run is known to be alive, so a small floor is
+		// waived for it; large floors keep 20% slack.
+		eff := c.Floors[r]
+		backed := fixtureHits["want:"+r] > 0 && fixtureHits["clean:"+r] > 0
+		switch {
+		case eff < 10 && backed:
+			eff = 0
+		case eff >= 10:
+			eff = eff * 4 / 5
+		}
+		floorReport[r] = map[string]int{"instances": n, "floor": c.Floors[r], "effective_floor": eff}
+		if n < eff {
+			c.problem("rule %s matched %d instances, below its floor %d (rule would pass vacuously)", r, n, eff)
 		}
 	}
 
